@@ -37,38 +37,39 @@ var pkgAlias = map[string]string{
 }
 
 type World struct {
-	Dir        string
-	GOOS       string
-	GOARCH     string
-	Fset       *token.FileSet
-	Roots      []*packages.Package
-	AllPkgs    map[string]*packages.Package
-	Prog       *ssa.Program
-	ModFns     []*ssa.Function // all functions (incl. anonymous) of the module, sorted by name
-	IsMod      map[*ssa.Function]bool
-	CG         *callgraph.Graph
-	Closures   map[*ssa.Function][]*ssa.MakeClosure
-	stores     map[string][]*ssa.Store
-	keyMemo    map[ssa.Value]string
-	escMemo    map[ssa.Value]bool
-	stableMemo map[string]bool
-	copierMemo map[*ssa.Function]string
-	factMemo   map[*ssa.Function]*funcFacts
-	dead       map[edgeKey]bool
-	keyDepth   int
-	intConsts  map[string]*ssa.Const
-	fwdBusy    bool
-	liveMemo   map[*ssa.Function]map[*ssa.BasicBlock]bool
-	li         *lockInfo
-	eff        *effectInfo
-	fl         *flowInfo
-	ai         *absint
-	synthPos   map[ssa.Instruction]string
-	synth      *synthState
-	ren        *renames
-	storeSets  map[*ssa.Function]map[*types.Var]bool
-	NPkgs      int
-	NFuncs     int
+	Dir          string
+	GOOS         string
+	GOARCH       string
+	Fset         *token.FileSet
+	Roots        []*packages.Package
+	AllPkgs      map[string]*packages.Package
+	Prog         *ssa.Program
+	ModFns       []*ssa.Function // all functions (incl. anonymous) of the module, sorted by name
+	IsMod        map[*ssa.Function]bool
+	CG           *callgraph.Graph
+	Closures     map[*ssa.Function][]*ssa.MakeClosure
+	stores       map[string][]*ssa.Store
+	keyMemo      map[ssa.Value]string
+	escMemo      map[ssa.Value]bool
+	stableMemo   map[string]bool
+	copierMemo   map[*ssa.Function]string
+	reqBuildMemo *reqBuild
+	factMemo     map[*ssa.Function]*funcFacts
+	dead         map[edgeKey]bool
+	keyDepth     int
+	intConsts    map[string]*ssa.Const
+	fwdBusy      bool
+	liveMemo     map[*ssa.Function]map[*ssa.BasicBlock]bool
+	li           *lockInfo
+	eff          *effectInfo
+	fl           *flowInfo
+	ai           *absint
+	synthPos     map[ssa.Instruction]string
+	synth        *synthState
+	ren          *renames
+	storeSets    map[*ssa.Function]map[*types.Var]bool
+	NPkgs        int
+	NFuncs       int
 }
 
 var theWorld *World
